@@ -1005,3 +1005,196 @@ Proof.
       assert (s <> remain) as N2 by (intro Q; rewrite Q, (Fresh remain Vr) in Sin; discriminate).
       rewrite Hcs, (N_eqb_neq s split N1), (N_eqb_neq s remain N2) in X. destruct (0 <? cnt _ b sv); lia.
 Qed.
+
+(* ---------- stored blocks and mapping entries never disappear ---------- *)
+Definition grows {V} (m m' : list (N * V)) : Prop := forall k, aget N.eqb k m' = None -> aget N.eqb k m = None.
+
+Lemma grows_refl {V} (m : list (N * V)) : grows m m. Proof. intros k H; exact H. Qed.
+Lemma grows_trans {V} (a b c : list (N * V)) : grows a b -> grows b c -> grows a c.
+Proof. intros H1 H2 k H. apply H1, H2, H. Qed.
+Lemma grows_aset {V} k (v : V) m : grows m (aset N.eqb k v m).
+Proof. intros k' H. rewrite aget_aset_N in H. now destruct (k' =? k). Qed.
+
+Lemma grows_fold {V W} (f : list (N * V) -> W -> list (N * V)) l : forall m,
+  (forall m x, grows m (f m x)) -> grows m (fold_left f l m).
+Proof.
+  induction l as [|x r IH]; intros m H; simpl; [apply grows_refl|].
+  eapply grows_trans; [apply H | apply IH, H].
+Qed.
+
+Lemma grows_put_blocks vx blocks : grows vx (put_blocks vx blocks).
+Proof. unfold put_blocks. apply grows_fold. intros m x. apply grows_aset. Qed.
+
+Lemma grows_set_all m svs l : grows m (set_all m svs l).
+Proof. unfold set_all. apply grows_fold. intros m' x. apply grows_aset. Qed.
+
+Lemma grows_split_sv_blocks sv split remain masks idx' : forall blks vx vx',
+  split_sv_blocks vx blks sv split remain masks idx' = Some vx' -> grows vx vx'.
+Proof.
+  induction blks as [|b r IH]; intros vx vx' H; cbn [split_sv_blocks] in H.
+  - inversion H. apply grows_refl.
+  - destruct (aget N.eqb b vx) as [arr|]; [|now apply IH].
+    match type of H with (if ?c then _ else _) = _ => destruct c end; [|discriminate].
+    eapply grows_trans; [apply grows_aset | apply (IH _ _ H)].
+Qed.
+
+Theorem fstep_grows fx aggl st o st' :
+  fstep fx aggl st o = Ok st' -> grows (f_vox st) (f_vox st') /\ grows (f_map st) (f_map st').
+Proof.
+  destruct o; simpl; intro H.
+  - apply Ok_inj in H; subst. split; [apply grows_put_blocks | apply grows_refl].
+  - apply Ok_inj in H; subst. split; [apply grows_put_blocks | apply grows_refl].
+  - apply Ok_inj in H; subst. split; [apply grows_put_blocks | apply grows_refl].
+  - apply Ok_inj in H; subst. split; apply grows_refl.
+  - apply Ok_inj in H; subst. split; [apply grows_refl|]. cbn [f_vox f_map]. apply grows_fold. intros m x. apply grows_aset.
+  - unfold f_merge in H. destruct (nodupN merged); [discriminate|].
+    destruct (all_idx st (n :: l)); [|discriminate]. destruct (get_idx st target); [|discriminate].
+    destruct (idx_add_all [] l0) as [mi| |]; try discriminate. destruct (num_voxels mi =? 0); [discriminate|].
+    destruct (idx_add i mi); try discriminate. apply Ok_inj in H; subst. cbn [f_vox f_map].
+    split; [apply grows_refl | apply grows_set_all].
+  - unfold f_cleave in H. destruct (get_idx st body); [|discriminate].
+    destruct (negb (nodupb svs) || negb (forallb (sv_in i) svs)); [discriminate|].
+    destruct (forallb (fun s => memN s svs) (supervoxels i)); [discriminate|].
+    destruct svs; [discriminate|]. destruct (idx_cleave i (n :: svs)) as [[[? ?] ?] ?].
+    apply Ok_inj in H; subst. cbn [f_vox f_map]. split; [apply grows_refl|].
+    eapply grows_trans; [apply grows_set_all | apply grows_aset].
+  - unfold f_splitsv in H. destruct (get_idx st (mapped (f_map st) sv)); [|discriminate].
+    destruct (sv_count i sv <? sumN (map snd rl)); [discriminate|].
+    destruct (split_sv_index i sv split remain rl) as [i'| |]; try discriminate.
+    destruct (split_sv_blocks (f_vox st) (sv_blocks i sv) sv split remain masks i') as [vx'|] eqn:E; [|discriminate].
+    apply Ok_inj in H; subst. cbn [f_vox f_map]. split; [eapply grows_split_sv_blocks; eauto|].
+    eapply grows_trans; [apply grows_aset|]. eapply grows_trans; apply grows_aset.
+  - unfold f_renumber in H. destruct (ahas N.eqb new (f_idx st)); [discriminate|].
+    match type of H with (if ?c then _ else _) = _ => destruct c end; [discriminate|].
+    destruct (get_idx st old); [|discriminate]. apply Ok_inj in H; subst. cbn [f_vox f_map].
+    split; [apply grows_refl|]. eapply grows_trans; [apply grows_set_all | apply grows_aset].
+  - unfold f_split in H. destruct (get_idx st body); [|discriminate].
+    match type of H with (if ?c then _ else _) = _ => destruct c end; [discriminate|].
+    destruct (block_splits (f_vox st) masks sm); [|discriminate].
+    match type of H with (if ?c then _ else _) = _ => destruct c end; [discriminate|].
+    destruct (split_index i l sm) as [[ri si]| |]; try discriminate.
+    apply Ok_inj in H; subst. cbn [f_vox f_map]. split.
+    + apply grows_fold. intros m b. destruct (aget N.eqb b m); [apply grows_aset | apply grows_refl].
+    + apply grows_fold. intros m e. eapply grows_trans; [apply grows_aset|].
+      eapply grows_trans; apply grows_aset.
+Qed.
+
+(* ---------- every stored block array has the block volume as length ---------- *)
+Definition Sized (n : nat) (st : fstate) : Prop := forall b a, aget N.eqb b (f_vox st) = Some a -> length a = n.
+
+Lemma length_relabel_sv arr : forall mask sv split remain, length (relabel_sv arr mask sv split remain) = length arr.
+Proof. induction arr as [|l r IH]; intros; cbn [relabel_sv length]; [reflexivity | now rewrite IH]. Qed.
+
+Lemma length_relabel_split arr : forall mask sm, length (relabel_split arr mask sm) = length arr.
+Proof. induction arr as [|l r IH]; intros; cbn [relabel_split length]; [reflexivity | now rewrite IH]. Qed.
+
+Definition SizedV (n : nat) (vx : list (N * list N)) : Prop := forall b a, aget N.eqb b vx = Some a -> length a = n.
+
+Lemma sizedv_aset n vx b a : SizedV n vx -> length a = n -> SizedV n (aset N.eqb b a vx).
+Proof.
+  intros H Ha b' a'. rewrite aget_aset_N. destruct (b' =? b); [intro E; inversion E; now subst | apply H].
+Qed.
+
+Lemma sizedv_put_blocks n blocks : forall vx,
+  SizedV n vx -> (forall b a, In (b, a) blocks -> length a = n) -> SizedV n (put_blocks vx blocks).
+Proof.
+  unfold put_blocks. induction blocks as [|[b a] r IH]; intros vx H Hb; simpl; [exact H|].
+  apply IH; [apply sizedv_aset; [exact H | apply (Hb b a); now left] | intros; eapply Hb; right; eassumption].
+Qed.
+
+Lemma sizedv_split_sv_blocks n sv split remain masks idx' : forall blks vx vx',
+  SizedV n vx -> split_sv_blocks vx blks sv split remain masks idx' = Some vx' -> SizedV n vx'.
+Proof.
+  induction blks as [|b r IH]; intros vx vx' S H; cbn [split_sv_blocks] in H.
+  - inversion H; now subst.
+  - destruct (aget N.eqb b vx) as [arr|] eqn:A; [|now apply (IH vx)].
+    match type of H with (if ?c then _ else _) = _ => destruct c end; [|discriminate].
+    apply (IH _ vx' (sizedv_aset n vx b _ S ltac:(rewrite length_relabel_sv; apply (S b arr A))) H).
+Qed.
+
+(* ---------- the documented contracts, as guards ---------- *)
+Definition live_blocks_ok (st : fstate) (blocks : list (N * list N)) : Prop :=
+  forall b a s, In (b, a) blocks -> 0 < occ a s -> s <> 0 -> mapped (f_map st) s <> 0.
+
+Definition fresh_sv (st : fstate) (x : N) : Prop := x <> 0 /\ forall b, vcount st b x = 0.
+
+Definition op_guard (fx : fixes) (n : nat) (st : fstate) (o : op) : Prop :=
+  match o with
+  | OIngest blocks =>
+    (* POST blocks / POST raw: only onto blocks not yet written; labels are live or unused ids *)
+    fx_members fx = true /\ NoDup (map fst blocks) /\
+    (forall b a, In (b, a) blocks -> aget N.eqb b (f_vox st) = None /\ length a = n) /\ live_blocks_ok st blocks
+  | OWrite blocks =>
+    fx_members fx = true /\ NoDup (map fst blocks) /\
+    (forall b a, In (b, a) blocks -> length a = n) /\ live_blocks_ok st blocks
+  | OMerge t ms => ~ In t ms
+  | OCleave b svs newl =>
+    (* the cleaved body gets an id never used before *)
+    newl <> 0 /\ get_idx st newl = None /\ (forall s, mapped (f_map st) s = newl -> s = newl) /\
+    (forall b', vcount st b' newl = 0)
+  | OSplitSV sv split remain masks rl =>
+    sv <> 0 /\ fresh_sv st split /\ fresh_sv st remain /\ split <> remain /\ split <> sv /\ remain <> sv /\
+    (forall b k, aget N.eqb b rl = Some k -> 0 < k < 2 ^ 32)
+  | ORenumber a b => fx_renumber fx = true /\ b <> 0
+  | OStore _ | OPutIndex _ _ | OPutMappings _ | OSplit _ _ _ _ => False
+  end.
+
+Definition Inv (n : nat) (st : fstate) : Prop := Consistent st /\ Sized n st.
+
+Theorem consistent_step fx n st o st' :
+  N.of_nat n < 2 ^ 31 -> Inv n st -> op_guard fx n st o ->
+  fstep fx (mapped (f_map st)) st o = Ok st' -> Inv n st'.
+Proof.
+  intros Hn [C S] G H.
+  assert (forall b a, aget N.eqb b (f_vox st) = Some a -> N.of_nat (length a) < 2 ^ 31) as Hl0
+      by (intros b a A; now rewrite (S b a A)).
+  destruct o; simpl in H, G; try contradiction.
+  - destruct G as (Hfx & ND & Hb & Hlive). apply Ok_inj in H; subst st'. split.
+    + apply consistent_write; try assumption.
+      * intros _ b a Hin. apply (Hb b a Hin).
+      * intros b a Hin. now rewrite (proj2 (Hb b a Hin)).
+    + unfold Sized, f_write; cbn [f_vox]. apply sizedv_put_blocks; [exact S | intros b a Hin; apply (Hb b a Hin)].
+  - destruct G as (Hfx & ND & Hb & Hlive). apply Ok_inj in H; subst st'. split.
+    + apply consistent_write; try assumption.
+      * discriminate.
+      * intros b a Hin. now rewrite (Hb b a Hin).
+    + unfold Sized, f_write; cbn [f_vox]. apply sizedv_put_blocks; [exact S | exact Hb].
+  - split; [eapply consistent_merge; eauto|].
+    unfold f_merge in H. destruct (nodupN merged); [discriminate|].
+    destruct (all_idx st (n0 :: l)); [|discriminate]. destruct (get_idx st target); [|discriminate].
+    destruct (idx_add_all [] l0) as [mi| |]; try discriminate. destruct (num_voxels mi =? 0); [discriminate|].
+    destruct (idx_add i mi); try discriminate. apply Ok_inj in H; subst. exact S.
+  - destruct G as (G1 & G2 & G3 & G4). split; [eapply consistent_cleave; eauto|].
+    unfold f_cleave in H. destruct (get_idx st body); [|discriminate].
+    destruct (negb (nodupb svs) || negb (forallb (sv_in i) svs)); [discriminate|].
+    destruct (forallb (fun s => memN s svs) (supervoxels i)); [discriminate|].
+    destruct svs; [discriminate|]. destruct (idx_cleave i (n0 :: svs)) as [[[? ?] ?] ?].
+    apply Ok_inj in H; subst. exact S.
+  - destruct G as (G1 & [G2 G2'] & [G3 G3'] & G4 & G5 & G6 & G7). split.
+    + apply (consistent_splitsv st sv split remain masks rl st' C G1 G2 G3 G4 G5 G6 G2' G3' G7); [|exact H].
+      intros b a A. rewrite (S b a A). lia.
+    + unfold f_splitsv in H. destruct (get_idx st (mapped (f_map st) sv)); [|discriminate].
+      destruct (sv_count i sv <? sumN (map snd rl)); [discriminate|].
+      destruct (split_sv_index i sv split remain rl) as [i'| |]; try discriminate.
+      destruct (split_sv_blocks (f_vox st) (sv_blocks i sv) sv split remain masks i') as [vx'|] eqn:E; [|discriminate].
+      apply Ok_inj in H; subst. unfold Sized; cbn [f_vox]. eapply sizedv_split_sv_blocks; eauto.
+  - destruct G as (G1 & G2). split; [eapply consistent_renumber; eauto|].
+    unfold f_renumber in H. destruct (ahas N.eqb new (f_idx st)); [discriminate|].
+    match type of H with (if ?c then _ else _) = _ => destruct c end; [discriminate|].
+    destruct (get_idx st old); [|discriminate]. apply Ok_inj in H; subst. exact S.
+Qed.
+
+(* The operations not closed: block storage without indexing, index and mapping ingest (their
+   contract is that the client's data agrees with the voxels) and the split of a body
+   (SplitLabels, switched off by default).  Missing part, explicit: that the state they produce
+   is consistent. *)
+Theorem consistent_step_partial fx n st o st' :
+  N.of_nat n < 2 ^ 31 -> Inv n st ->
+  match o with
+  | OStore _ | OPutIndex _ _ | OPutMappings _ | OSplit _ _ _ _ => Inv n st'
+  | _ => op_guard fx n st o
+  end ->
+  fstep fx (mapped (f_map st)) st o = Ok st' -> Inv n st'.
+Proof.
+  intros Hn I G H. destruct o; try exact G; eapply consistent_step; eauto.
+Qed.
